@@ -41,7 +41,7 @@ uint64_t fingerprint_result(const CodegenResult &r) {
   h.add(r.errors.size());
   for (auto &e : r.errors) { h.add((uint64_t)e.t); h.add_str(e.message); h.add_str(e.file); h.add((uint64_t)(int64_t)e.line); }
   h.add(r.code.code.size());
-  for (auto &i : r.code.code) hash_instr(h, i);
+  for (size_t k = 0; k < r.code.code.size(); k++) hash_instr(h, r.code.code[k]);
   h.add(r.code.stack_maps.size());
   for (auto &m : r.code.stack_maps) { h.add_str(m.func_name); for (auto &kv : m.map) { h.add((uint64_t)kv.first); h.add_str(kv.second); } }
   for (auto &kv : r.code.potential_breaks) { h.add_str(kv.first.file); h.add((uint64_t)(int64_t)kv.first.line); for (int pc : kv.second) h.add((uint64_t)pc); }
@@ -92,7 +92,7 @@ TaskResult run_task(const Task &t, long long step_budget) {
   // the program the VM holds must be its own copy: compare against the compile result
   const Program &c = VerifAccess::code(vm);
   for (size_t i = 0; i < c.code.size() && i < r.code.code.size(); i++) if (!same_instr(c.code[i], r.code.code[i], true)) h.add(0xbadc0de + i);
-  for (auto &i : r.code.code) if (i.op == OpCode::BREAK) h.add(0xb4eaf);  // a VM's breakpoints must not leak into the compile result
+  for (size_t k = 0; k < r.code.code.size(); k++) if (r.code.code[k].op == OpCode::BREAK) h.add(0xb4eaf);  // a VM's breakpoints must not leak into the compile result
   // distinct VM instances never influence one another: while `vm` still holds its breakpoints, a second machine built from
   // the same compile result must run straight to the end, exactly like one built from the pristine copy
   {
@@ -105,6 +105,41 @@ TaskResult run_task(const Task &t, long long step_budget) {
     else if (exec_state_hash(second) != exec_state_hash(clean)) res.interference = 2;
     for (size_t i = 0; i < pristine.code.size() && i < r.code.code.size(); i++) if (!same_instr(r.code.code[i], pristine.code[i], false)) res.interference = 3;
     steps += n + m;
+  }
+  // a family of machines built from ONE compile result before any of them sets a breakpoint; the result may be destroyed
+  // before they do (plan bit 1), the order of the two enables (bit 2) and clear vs reset (bit 4) are the plan's
+  for (auto &op : t.ops) {
+    if (op.k != "family" || avail.empty()) continue;
+    CodegenResult ref = Theo::compile(t.proj.files, t.proj.main);        // independent copy with its own buffers
+    CodegenResult *src = new CodegenResult(Theo::compile(t.proj.files, t.proj.main));
+    if (!ref.generated_correctly || !src->generated_correctly) { delete src; continue; }
+    {
+      VM a(src->code), b(src->code);
+      if (op.a & 1) { delete src; src = nullptr; }
+      BreakPoint la = avail[(size_t)op.b % avail.size()], lb = avail[(size_t)op.c % avail.size()];
+      if (op.a & 2) { b.setBreakPoint(lb.file, lb.line, true); a.setBreakPoint(la.file, la.line, true); }
+      else { a.setBreakPoint(la.file, la.line, true); b.setBreakPoint(lb.file, lb.line, true); }
+      if (op.a & 4) a.reset(); else a.clearBreakpoints();
+      VM clean(ref.code);
+      long long n = 0; bool early = false;
+      while (n < step_budget) { bool stop = a.executeSingle(); n++; if (stop) { if (!a.isDone()) early = true; break; } }
+      for (long long m = 0; m < n; m++) if (clean.executeSingle()) break;
+      if (early) res.interference = 4;
+      else if (exec_state_hash(a) != exec_state_hash(clean)) res.interference = 5;
+      VM refb(ref.code);
+      refb.setBreakPoint(lb.file, lb.line, true);
+      for (int round = 0; round < 50 && !res.interference; round++) {
+        long long k1 = 0, k2 = 0;
+        while (k1 < step_budget && !b.executeSingle()) k1++;
+        while (k2 < step_budget && !refb.executeSingle()) k2++;
+        if (k1 != k2 || exec_state_hash(b) != exec_state_hash(refb)) res.interference = 6;
+        steps += k1 + k2;
+        if (b.isDone() || refb.isDone() || k1 >= step_budget) break;
+      }
+      steps += 2 * n;
+      h.add(0xfa111 + (uint64_t)res.interference);
+    }
+    delete src;
   }
   res.exec_fp = h.get();
   res.steps = steps;
@@ -286,7 +321,11 @@ void exec_mt_plan(const Plan &plan, Ctx &ctx, Outcome &out) {
     for (const TaskResult *tr : {&alone[k], &conc[k], &again[k]})
       if (tr->interference)
         ctx.check(false, "C18", "vm_instances_independent", "task " + std::to_string(k) + ": " + (tr->interference == 1 ? "a second VM built from the same compile result stopped at a breakpoint that was set in another VM"
-                  : tr->interference == 2 ? "a second VM built from the same compile result ran differently from a VM on a pristine copy of the program" : "setting breakpoints in a VM changed the CodegenResult it was built from"));
+                  : tr->interference == 2 ? "a second VM built from the same compile result ran differently from a VM on a pristine copy of the program"
+                  : tr->interference == 3 ? "setting breakpoints in a VM changed the CodegenResult it was built from"
+                  : tr->interference == 4 ? "two VMs built from one compile result: after clearing its own breakpoints one of them still stops (at the other's breakpoint)"
+                  : tr->interference == 5 ? "two VMs built from one compile result: after clearing its breakpoints one of them runs differently from a clean machine"
+                  : "two VMs built from one compile result: the one with a breakpoint does not stop where a machine of its own would"));
     if (alone[k].ok) ctx.stats.inc("tasks_compiled_ok"); else ctx.stats.inc("tasks_with_compile_errors");
   }
   if (helper > 0) {
@@ -347,7 +386,7 @@ Plan gen_mt_plan(const std::string &, Rng &rng, long long, const std::string &ti
       GenParams gp;
       gp.max_defs = (int)rng.range(0, 3); gp.max_stmts = (int)rng.range(2, thorough ? 9 : 6); gp.max_depth = (int)rng.range(1, 3); gp.max_const = 4;
       gp.allow_noparam = true; gp.allow_stop = rng.chance(1, 5);
-      gp.macros = rng.chance(1, 2) ? (unsigned)rng.below(16) : 0;
+      gp.macros = rng.chance(1, 2) ? ((unsigned)rng.below(16) | (rng.chance(1, 3) ? (unsigned)MF_TWICE : 0u) | (rng.chance(1, 3) ? (unsigned)MF_ARITH : 0u)) : 0;
       if (rng.chance(1, 4)) gp.macros |= MF_NONLR;
       gp.call_heavy = rng.chance(1, 3);
       t.proj.has_ast = true;
@@ -383,6 +422,7 @@ Plan gen_mt_plan(const std::string &, Rng &rng, long long, const std::string &ti
       t.ops.push_back(o);
     }
     if (twin && k == 1) { t.ops.clear(); }   // the twin runs without any breakpoint
+    if (rng.chance(3, 5)) { Op f; f.k = "family"; f.a = (long long)rng.below(8); f.b = (long long)rng.below(32); f.c = (long long)rng.below(32); t.ops.push_back(f); }
     Op e; e.k = "runall"; t.ops.push_back(e);
     p.tasks.push_back(t);
   }
